@@ -23,6 +23,7 @@ PROP = {
         "GunYu.Props.C19.txn_cluster_redirect_sent_once",
         "GunYu.Props.C19.txn_blocking_sent_once",
         "GunYu.Props.C19.recv_path_reports",
+        "GunYu.Props.C19.recv_failed_sends_nothing",
         "GunYu.Props.C19.sender_sends_at_most_three",
     ],
     "expected_facts": EXPECTED_SENDER_FACTS,
@@ -57,7 +58,12 @@ PROP = {
             "trace (`quiet` line, expected true for generated schedules); mode syncnf (blocking batches, redirect following off) with a "
             "STALLED node (the double holds what that node receives): monitor exec-returned-with-commands-in-flight - Exec must not return "
             "while another node of the batch still holds unprocessed commands (corpus failfast-exec.txt; the stall is lifted after 300 ms "
-            "when Exec is still waiting, which is what the unchanged code does - the time never decides a verdict on a correct Exec)",
+            "when Exec is still waiting, which is what the unchanged code does - the time never decides a verdict on a correct Exec). C19out resumable plain scenarios (checkpoint offset on the target): monitor "
+            "checkpoint-ahead-of-execution (the largest stored offset covers a command that never took effect) with a trace-derived "
+            "mechanism: offset-sent-after-failed-answer (D29a, fixed b47e97e: forced scenario nofollow-pipe, moved slot last in the stream, "
+            "its node stalled until the sender is idle, client Close held until the write arrives) / offset-applied-before-failed-answer "
+            "(cpbatch-block, cpbatch-pipe: data and checkpoint HSETs in one batch, data node stalled until the checkpoint node applied the "
+            "offset, then -ERR); D22's `cause` is set by the monitor only when the trace shows the mechanism",
     "trusted": [
         "Redis Cluster redirection rules as transcribed in Model/ClusterRoute.lean (answer, tanswer, applyMig) and in the cluster "
         "double vf_c19_double_test.go (getNodeByQuery: MOVED/ASK/ASKING/TRYAGAIN/CROSSSLOT, EXEC re-check over all queued keys, "
